@@ -148,4 +148,14 @@ def gapsSpec (t : List Cell) (out : List Period) : Bool :=
     ps.any (fun q => q.1 == p.2.succ) ||                -- contiguous continuation
     out.any (fun g => g.1 == p.2.succ)
 
+/-- `num_samples` (`none` = refused): the common size of all sample arrays (size > 1), 1 when
+there is none, refused exactly when two sizes differ -/
+def numSamplesSpec (t : List Cell) (out : Option Nat) : Bool :=
+  let sizes := (t.flatMap fun c => c.values.filterMap (·.2.sampleSize)).eraseDups
+  match sizes, out with
+  | [], some n => n == 1
+  | [k], some n => n == k
+  | _ :: _ :: _, none => true
+  | _, _ => false
+
 end Bermuda.Spec.C13
